@@ -659,6 +659,15 @@ fn exec_sworld(w: &SWorld) -> SExec {
                 if let Some((clause, detail)) = d.observe(h, o) {
                     ex.viols.push(SViol { clause, detail, op: i });
                 }
+                // a forward Reject must not swallow a find_iter match: forward Match steps have
+                // to be exactly find_iter, so Reject regions are disjoint from every match
+                if forward {
+                    if let Obs::Reject(a, b) | Obs::SkipReject(a, b) = o {
+                        if let Some(m) = f.iter().find(|(s, e)| if s == e { a < *s && *s < b } else { *s < b && a < *e }) {
+                            ex.viols.push(SViol { clause: "M-forward-reject-covers-a-match".into(), detail: format!("{:?} overlaps the find_iter match {:?}", o, m), op: i });
+                        }
+                    }
+                }
                 // backward Match steps must be places where the regex matches
                 if !forward {
                     if let Obs::Match(a, _) | Obs::SkipMatch(a, _) = o {
@@ -726,6 +735,16 @@ fn exec_sworld(w: &SWorld) -> SExec {
                     return Ok(());
                 }
                 Ok(()) => {}
+            }
+            if ex.viols.is_empty() {
+                for o in fw.log.iter() {
+                    if let Obs::Reject(a, b) | Obs::SkipReject(a, b) = *o {
+                        if let Some(m) = f.iter().find(|(s, e)| if s == e { a < *s && *s < b } else { *s < b && a < *e }) {
+                            ex.viols.push(SViol { clause: "M-forward-reject-covers-a-match".into(), detail: format!("{:?} overlaps the find_iter match {:?}", o, m), op: w.script.len() });
+                            break;
+                        }
+                    }
+                }
             }
             if ex.viols.is_empty() {
                 if !fw.done || !bw.done {
